@@ -450,7 +450,7 @@ def c18_pairs(sc, tier):
     for p in sc.corpus_index:
         if p["class"] == "production" and tier == "quick":
             continue
-        if p["size"] > 6000 and tier == "quick":
+        if p["size"] > 6000 and tier == "quick" and p["class"] != "special":
             continue
         for d in p["data"]:
             if d["size"] <= (40000 if tier == "quick" else 400000):
@@ -458,7 +458,7 @@ def c18_pairs(sc, tier):
                 dp = d["path"] if os.path.isabs(d["path"]) else os.path.join(sc.src, d["path"])
                 pairs.append((pp, dp))
                 if p["class"] == "special" or p["id"] in ("integration/profile29", "integration/profile24", "integration/profile25", "integration/profile26", "integration/profile27"):
-                    pairs += [(pp, dp)] * 12
+                    pairs += [(pp, dp)] * 30
     return pairs
 
 
@@ -672,7 +672,12 @@ def check_c11(tier, seed):
         flaky_ok = bool(sc.census.get("selects"))
         attempts = 6 if flaky_ok else 2
         chosen, best = None, 0
-        for cand in (simple, cell):
+        cands = (simple, cell)
+        if r.get("process_died"):
+            # the process was killed inside this cell, so its decisions were never written out: the cell is
+            # re-executed from its seed (the PRNG is the only source of decisions, so that is the same run)
+            cands = ({k: v for k, v in r["cell"].items() if k not in ("choices", "dts", "sels")},)
+        for cand in cands:
             ok = 0
             for _ in range(attempts):
                 rr = c11.run_bubbles(sc, testbin, dict(job, replay=cand), 1)
